@@ -198,11 +198,17 @@ pub fn run_stats_rt(
         // sampled: every 7th leaf
         paths = paths.into_iter().step_by(7).collect();
     }
-    for path in paths {
+    for (pi, path) in paths.into_iter().enumerate() {
         let Some(d) = perturb(&doc, &path) else { continue };
         let Some(text) = render(&d, &ext) else { continue };
         let mut c = bb.clone();
         c.input_stats = Some(text);
+        if pi % 5 == 3 {
+            // every fifth perturbed leaf: the reader of stdout is gone (EPIPE from a byte within the first lines
+            // of the report on) - the drift must be reported on stderr and in the exit status all the same
+            c.io.stdout_fail_at = Some((pi as u64 * 37) % 1500);
+            c.io.stdout_errno = 32;
+        }
         let rc = ex.exec(&c);
         ex.fault("stored_statistic_perturbed");
         if let Some(f) = check_orderly(&rc) {
